@@ -50,6 +50,7 @@ fn main() {
     let a = util::Args::parse(&argv[2..]);
     match argv[1].as_str() {
         "c13" => c13::main(&a),
+        "c13cli" => c13::cli_main(&a),
         "c03" => c03::main(&a),
         "c02" => c02::main(&a),
         "c01" => c01::main(&a),
